@@ -17,6 +17,7 @@ import Proofs.LineValues
 import Proofs.ExportText
 import Proofs.RowTie
 import Proofs.FlowTie
+import Proofs.RowTieMarshal
 
 namespace Jl.C03
 open Jl Jl.Value Jl.Template
@@ -244,5 +245,14 @@ theorem order_model_is_the_source :
       FlowTie.createRowG Gen.flowTable.createRow env t v = some (Template.createRow env t v)) :=
   ⟨fun ops r k x => RowTie.parseMember_as_modelled ops r k x,
    fun ops r k x => RowTie.importAtKey_as_modelled ops r k x, FlowTie.createRow_is_createRow⟩
+
+
+/-- …and what turns that order into bytes: `row.MarshalJSON`, as written today (one quoted key
+    through the JSON encoder, `:`, the value's own `MarshalJSON`, members in list order, the
+    Hidden format skipped), is the model's `marshalVal`. -/
+theorem serialisation_is_the_source (env : Value.Env) (ms : Members) :
+    RowTie.marshalRowG Gen.rowFacts.marshal (RowPrint.marshalVal env) ms.toList =
+      some (RowPrint.marshalVal env (.row ms)) :=
+  RowTie.marshal_as_modelled env ms
 
 end Jl.C03
